@@ -196,6 +196,8 @@ class C11(EngineProp):
             fails.append({'signature': 'sends-after-close', 'what': '%d frames reached the transport after the close notification' % obs['final']['sent_after_close']})
         if obs['final'].get('oneway_pending'):
             fails.append({'signature': 'unsent-one-way-request-left-pending', 'what': 'the awaitable of %s whose frame had not left the endpoint is still pending after the connection ended' % obs['final']['oneway_pending']})
+        if obs['final'].get('write_failures', 0) > 1:
+            fails.append({'signature': 'sending-continues-after-write-failure', 'what': 'send_frame was called %d times on a transport whose write side had failed (the first failure ends sending)' % obs['final']['write_failures']})
         if obs['final']['sender_alive']:
             fails.append({'signature': 'sender-still-running', 'what': 'the sender task is still running after the connection ended'})
         for oid, kind in enumerate(obs['kinds']):
